@@ -345,4 +345,20 @@ def outputsOf (w : World α) (i : Nat) : List (Nat × Notif α) :=
 
 end World
 
+/-! ### `multicast(subject_factory, mapper)` (= `publish(mapper)`, `replay(mapper=…)`, `publish_value(v, mapper)`)
+
+`_multicast.py`, factory branch: every subscription builds its own connectable
+(`source.pipe(multicast(subject=subject_factory(scheduler)))`), subscribes `mapper(connectable)` —
+`k` inner subscriptions to the private subject — **then** connects it, and returns
+`CompositeDisposable(subscription, connection)`.  So one outer subscription at time `t`, disposed
+at `tu` (if ever), is a private raw-connectable world with this history: -/
+def mcastOps (k t : Nat) (tu : Option Nat) : List (Nat × Op) :=
+  (List.range k).map (fun a => (t, Op.sub a)) ++ [(t, Op.connect)] ++
+    (match tu with
+     | some u => (List.range k).map (fun a => (u, Op.unsub a)) ++ [(u, Op.disconnect 0)]
+     | none => [])
+
+def World.mcastWorld {α} (w : World α) (k t : Nat) (tu : Option Nat) (horizon : Nat) : World α :=
+  w.run (mcastOps k t tu) horizon
+
 end Conn
